@@ -77,7 +77,7 @@ func main() {
 	runs := make([]scriptRun, nScripts)
 	rngs := make([]*common.Rng, nScripts)
 	for i := range runs {
-		runs[i].s = lib.GenScript(rng, i, minW, maxW)
+		runs[i].s = lib.GenScript(rng, i, minW, maxW, 35)
 		rngs[i] = rng.Fork(fmt.Sprintf("img%d", i))
 	}
 	common.Parallel(nScripts, 16, func(i int) {
